@@ -539,7 +539,12 @@ outerNew:
 		for col := 0; col < len(vx.screenNext.buf[row]); col += 1 {
 			next := vx.screenNext.buf[row][col]
 			if next.sixel {
-				vx.screenLast.buf[row][col].sixel = true
+				// Cells covered by a wide glyph this cell used to hold
+				// must be rewritten, the image only covers this one
+				if end := col + vx.advance(vx.screenLast.buf[row][col]) + 1; end > dirty {
+					dirty = end
+				}
+				vx.screenLast.buf[row][col] = next
 				reposition = true
 				continue
 			}
